@@ -15,6 +15,7 @@ const (
 	c19evChSent  = "ev:chsent"
 	c19evChSent2 = "ev:chsent2"
 	c19evStored  = "ev:stored"
+	c19evClosed  = "ev:closed" // the callback took a select case receiving from the syncer's done channel
 )
 
 // c19runMutates reports a statement of run (closures included) that writes into a
@@ -172,6 +173,51 @@ func c19Adapter(c *core.Ctx, r *c19run, pkg *packages.Package, fd *ast.FuncDecl,
 			"the callback never sends on the channel returned to the caller: no snapshot reaches the consumer")
 		return
 	}
+	// A send that is the communication of a select case happens only if that case is chosen
+	// (go/cfg evaluates all communications of a select before branching, so the statement
+	// node alone does not mean the value was sent).
+	lpm := parentMap(lit)
+	commSend := map[ast.Stmt]bool{}  // comm clauses whose communication sends on the returned channel
+	commClose := map[ast.Stmt]bool{} // comm clauses receiving from a channel field of the syncer (Close)
+	var chanFields []*types.Var
+	if nt := namedType(c, c19pkg, "syncer"); nt != nil {
+		if stt, ok := nt.Underlying().(*types.Struct); ok {
+			for i := 0; i < stt.NumFields(); i++ {
+				if _, ok := stt.Field(i).Type().Underlying().(*types.Chan); ok {
+					chanFields = append(chanFields, stt.Field(i))
+				}
+			}
+		}
+	}
+	inSelect := map[*ast.SendStmt]bool{}
+	for _, s := range sends {
+		if cc, ok := lpm[s].(*ast.CommClause); ok && cc.Comm == s {
+			commSend[cc] = true
+			inSelect[s] = true
+		}
+	}
+	c19inspect(lit, func(n ast.Node) bool {
+		cc, ok := n.(*ast.CommClause)
+		if !ok || cc.Comm == nil {
+			return true
+		}
+		if sel, ok := c19recvFrom(cc.Comm).(*ast.SelectorExpr); ok {
+			if sl := lf.Info.Selections[sel]; sl != nil {
+				for _, fld := range chanFields {
+					if sl.Obj() == fld {
+						commClose[cc] = true
+					}
+				}
+			}
+		}
+		return true
+	})
+	markSent := func(st *flow.State) {
+		if st.Is(c19evChSent, flow.True) {
+			st.Set(c19evChSent2, flow.True)
+		}
+		st.Set(c19evChSent, flow.True)
+	}
 	// map adapters: the copy loop
 	var L *ast.RangeStmt
 	nLoops := 0
@@ -209,17 +255,22 @@ func c19Adapter(c *core.Ctx, r *c19run, pkg *packages.Package, fd *ast.FuncDecl,
 	iters := 0
 	res := analyze(c, lf, flow.Config{NoHavoc: true,
 		OnNode: func(st *flow.State, n ast.Node) {
-			if s, ok := n.(*ast.SendStmt); ok && c19obj(lf, s.Chan) == chObj {
-				if st.Is(c19evChSent, flow.True) {
-					st.Set(c19evChSent2, flow.True)
-				}
-				st.Set(c19evChSent, flow.True)
+			if s, ok := n.(*ast.SendStmt); ok && c19obj(lf, s.Chan) == chObj && !inSelect[s] {
+				markSent(st)
 			}
 			if isStore(n) {
 				st.Set(c19evStored, flow.True)
 			}
 		},
 		OnBlock: func(st *flow.State, b *cfg.Block) {
+			if b.Kind == cfg.KindSelectCaseBody {
+				if commSend[b.Stmt] {
+					markSent(st)
+				}
+				if commClose[b.Stmt] {
+					st.Set(c19evClosed, flow.True)
+				}
+			}
 			if L == nil || b.Stmt != L {
 				return
 			}
@@ -251,7 +302,7 @@ func c19Adapter(c *core.Ctx, r *c19run, pkg *packages.Package, fd *ast.FuncDecl,
 			continue
 		}
 		exits++
-		if !ex.State.Is(c19evChSent, flow.True) {
+		if !ex.State.Is(c19evChSent, flow.True) && !ex.State.Is(c19evClosed, flow.True) {
 			none = ex.State
 		}
 		if ex.State.Is(c19evChSent2, flow.True) {
@@ -262,12 +313,12 @@ func c19Adapter(c *core.Ctx, r *c19run, pkg *packages.Package, fd *ast.FuncDecl,
 	why, bad := "", (*flow.State)(nil)
 	switch {
 	case none != nil:
-		why, bad = "a path through the callback returns without sending: run has already recorded the snapshot as delivered, so the consumer never receives that content (no convergence)", none
+		why, bad = "a path through the callback returns without having sent the snapshot (no send on the path, or a select whose default / timeout / other alternative gives the snapshot up when the consumer is slow): run has already recorded the snapshot as `last`, so every later pull compares equal and the consumer never receives that content — no convergence to the final state. Only a case receiving from the syncer's own done channel (Close) may abandon a snapshot", none
 	case twice != nil:
 		why, bad = "a path through the callback sends twice for one snapshot: the consumer receives equal consecutive snapshots", twice
 	}
 	c.Check(bad == nil, "R-C19-5", cons+"|exactly one send per snapshot", pos(c, lit),
-		sprintf("%d exit(s) of the callback, each after exactly one send on the returned channel", exits), why, witness(bad)...)
+		sprintf("%d exit(s) of the callback, each after exactly one unconditional send on the returned channel (or after the syncer was closed)", exits), why, witness(bad)...)
 
 	if !isMap {
 		c19SingleKey(c, cons, lf, lit, keyP, isData, sends, res)
